@@ -42,7 +42,7 @@ CHECKS = {
  "C07": dict(
    engine="intern",
    category="exploration",
-   text="Seeded histories (3-30 events, <=12 live handles, 3 re-allocatable array slots) of construct (under reflect, lazy, normalize, memoize-over-lazy, eager for leaf constructors; ~20 recipes: Variable, Number 1/1.0/True, Tensor over a slot, Binary/Unary/Reduce/Subs/Lambda/Stack/Cat/Delta/Slice, domains, parametrised ops and types), drop, gc(generation), re-allocate a slot (recycled id), pickle round trip, reinterpret under reflect, touch lazy properties, an exception injected at the n-th internal call of a construct, a collection injected at the n-th executed line of reflect / __getitem__ / OpMeta.__call__ / Memoize.interpret, and RESTART. Each history runs in a fresh fork against a reference map; after every event: I1 no two live interned terms with equal constructor arguments, I2 re-construction returns the identical live object, I3 no stale object (data is the requested array), I5 pickle/reinterpret identity; at the end I4: after dropping everything and collecting, every intern table is back to its size at the start.",
+   text="Every history of length <=2 (quick) / <=3 (thorough) over a reduced 21-event alphabet is enumerated completely; beyond that, seeded histories (3-30 events, <=12 live handles, 3 re-allocatable array slots) of construct (under reflect, lazy, normalize, memoize-over-lazy, eager for leaf constructors; ~20 recipes: Variable, Number 1/1.0/True, Tensor over a slot, Binary/Unary/Reduce/Subs/Lambda/Stack/Cat/Delta/Slice, domains, parametrised ops and types), drop, gc(generation), re-allocate a slot (recycled id), pickle round trip, reinterpret under reflect, touch lazy properties, an exception injected at the n-th internal call of a construct, a collection injected at the n-th executed line of reflect / __getitem__ / OpMeta.__call__ / Memoize.interpret, and RESTART. Each history runs in a fresh fork against a reference map; after every event: I1 no two live interned terms with equal constructor arguments, I2 re-construction returns the identical live object, I3 no stale object (data is the requested array), I5 pickle/reinterpret identity; at the end I4: after dropping everything and collecting, every intern table is back to its size at the start.",
    design_ref="DESIGN.md section 6 (C07)",
    note="Equality of arguments = Python equality for hashable atoms, identity for arrays and funsors. A constructor call that raises under an injected collection/exception is an observation. RESTART = the survivors are pickled, a *new interpreter* of the same world unpickles them under reflect (structure, identity of shared handles and of shared array-free sub-terms must survive) and continues the history; parametrised-type caches are exercised but their size is not part of I4.",
    technique="deterministic simulation: seeded construct/drop/collect/realloc/pickle histories with injected collections and exceptions against a reference intern map"),
